@@ -31,7 +31,8 @@ INDENT_PARAMS = {'indent', 'open_brace', 'close_brace', 'cur_indent', 'start_ind
 
 def _derives_from_content(node: ast.AST) -> bool:
     for n in ast.walk(node):
-        if isinstance(n, ast.Attribute) and n.attr in CONTENT_ATTRS and isinstance(n.value, ast.Name) and n.value.id == 'self':
+        # `self.<field>` or the same field of a child the writer handles itself (`child._real_name` in a loop over the children)
+        if isinstance(n, ast.Attribute) and n.attr in CONTENT_ATTRS | {'_folded_name'} and isinstance(n.value, ast.Name) and n.value.id not in ('file', 'os', 'sys'):
             return True
     return False
 
@@ -233,6 +234,11 @@ def run(ctx: Any, prog: Program) -> None:
                                       f'`{U(s.node)}` is written inside quotes in {s.position} position: {why or "escaped"}' + ('' if status == 'ok' else
                                       '; a quote or backslash in it ends the token early / is decoded as an escape by the reader' if why == 'tree content written as it is' else ''),
                                       text=f'{s.position} slot {U(s.node)}')
+                    folded_ = [x for x in ast.walk(s.node) if isinstance(x, ast.Attribute) and x.attr in ('name', '_folded_name') and isinstance(x.value, ast.Name)]
+                    if folded_:
+                        # `.name` is the case-folded spelling (a property over _folded_name): what has to be written is the real one
+                        ctx.check('C01.R1', False, kv, s.emit, f'`{U(s.node)}` writes the case-folded name (`{U(folded_[0])}`) where the tree holds `_real_name`: "GameInfo" is written as "gameinfo" and '
+                                  'read back as a different name', text=f'{s.position} slot {U(s.node)} real spelling')
                     ctx.check('C01.R2', not uses_indent, kv, s.emit,
                               f'indentation option `{U(s.node)}` is written inside a quoted string: the token stream would depend on it',
                               text=f'quoted slot {U(s.node)} indent-free')
@@ -484,6 +490,26 @@ def run(ctx: Any, prog: Program) -> None:
         mentions = [x for x in ast.walk(n.test) if isinstance(x, ast.Name) and x.id in content_vars]
         if not mentions:
             continue
+        # the option that allows line breaks switches the refusal off completely: with `newline_values=True` the test is false whatever the text
+        # is (three-valued evaluation over the boolean structure; `not opt and a or b` is `(not opt and a) or b`, which `b` alone can satisfy)
+        opt_params = {a.arg for a in parse.args.args + parse.args.kwonlyargs if a.arg.startswith('newline')}
+        used_opts = sorted({x.id for x in ast.walk(n.test) if isinstance(x, ast.Name) and x.id in opt_params})
+
+        def tv(e: ast.AST, on: str) -> Optional[bool]:
+            if isinstance(e, ast.Name) and e.id == on:
+                return True
+            if isinstance(e, ast.UnaryOp) and isinstance(e.op, ast.Not):
+                v_ = tv(e.operand, on)
+                return None if v_ is None else not v_
+            if isinstance(e, ast.BoolOp):
+                vs = [tv(x, on) for x in e.values]
+                if isinstance(e.op, ast.And):
+                    return False if any(x is False for x in vs) else (True if all(x is True for x in vs) else None)
+                return True if any(x is True for x in vs) else (False if all(x is False for x in vs) else None)
+            return None
+        for op_ in used_opts:
+            ctx.check('C01.R7', tv(n.test, op_) is False, kv, n, f'with {op_}=True the refusal `{U(n.test)[:80]}` can still fire (the option does not gate every alternative: `and` binds tighter than `or`): parse() then '
+                      'rejects text that serialise() wrote, e.g. a value containing a carriage return', text=f'refusal switched off by {op_}')
         # atoms of the test that look at the text
         atoms = []
         for x in ast.walk(n.test):
@@ -524,6 +550,7 @@ def _in_orelse(ifnode: ast.If, node: ast.AST, mod: Any) -> bool:
 
 
 MUTANTS = [
+    {'id': 'value_newline_guard_loses_parentheses', 'file': 'keyvalues.py', 'find': "                    if not newline_values and ('\\n' in prop_value or '\\r' in prop_value):", 'replace': "                    if not newline_values and '\\n' in prop_value or '\\r' in prop_value:", 'expect': 'C01.R7'},
     {'id': 'pushback_list_class_level', 'file': 'tokenizer.py', 'find': "    _pushback: list[tuple[Token, str]]\n", 'replace': "    _pushback: list[tuple[Token, str]] = []\n", 'extra': [{'file': 'tokenizer.py', 'find': "        self._pushback = []\n        self.line_num = 1\n", 'replace': "        self.line_num = 1\n"}], 'expect': 'C01.R10'},
     {'id': 'ok_pushback_default_and_init', 'file': 'tokenizer.py', 'find': "    _pushback: list[tuple[Token, str]]\n", 'replace': "    _pushback: list[tuple[Token, str]] = []\n", 'expect': None},
     {'id': 'leaf_line_percent_formatted', 'file': 'keyvalues.py', 'find': "            file.write(f'{cur_indent}\"{escape_text(self._real_name)}\" \"{escape_text(self._value)}\"\\n')", 'replace': "            name_part = f'{cur_indent}\"{escape_text(self._real_name)}\"'\n            file.write(f'{name_part} \"%s\"\\n' % escape_text(self._value))", 'expect': 'C01.R9'},
